@@ -75,7 +75,7 @@ CLAIMED = {
         "critical; scatter-cache cells are accessed atomically; the append-only detection-point table is reserved before use - after every "
         "reset and after every change of the size the appends stop at; per-thread "
         "accumulators (containers indexed by omp_get_thread_num()) are reduced and reset completely - every loop over them outside a "
-        "region visits all slots and is never left early; a member per-thread container is not reset slot-by-own-thread inside a region, a complete zero-fill loop exists wherever a complete reduction loop exists, and the call holding it sizes the container for omp_get_max_threads() (F51, fixed). NOT decided: numerical equality up to reassociation, memory-model adequacy of "
+        "region visits all slots and is never left early; a member per-thread container is not reset slot-by-own-thread inside a region, a complete zero-fill loop exists wherever a complete reduction loop exists, and the call holding it sizes the container for omp_get_max_threads() (F51, fixed). a per-thread container is sized with omp_get_num_threads() inside a parallel region and with omp_get_max_threads() outside (F81, fixed). NOT decided: numerical equality up to reassociation, memory-model adequacy of "
         "omp atomic, thread-safety inside callees beyond the reviewed table.",
         technique="static analysis: OpenMP-aware AST/CFG rules (typestate of double-checked locking, lock pairing by must-pass-through, "
         "shared-write discipline with data-sharing classification)",
@@ -125,7 +125,7 @@ CLAIMED = {
         "function replacing an input of a cache drops that cache (line-integral caches, and every lazily computed member - found from "
         "the code as `const function recomputes M when M fails its sentinel test` - with the members its defining expression reads; "
         "defect F17, fixed), process_data requires set-up; the set-up call chain leaves every scalar setting as the user gave it "
-        "(defect F21, fixed); data the object derives from its settings (scatter points; the scatter-point image made by set_up) follow every setter of one of their inputs by the time set_up() has run (F40, F41, fixed; F42: the cache switches reset the set-up flag). NOT decided: non-negativity, numerical "
+        "(defect F21, fixed); data the object derives from its settings (scatter points; the scatter-point image made by set_up) follow every setter of one of their inputs by the time set_up() has run (F40, F41, fixed; F42: the cache switches reset the set-up flag). a public setter skips storing its argument only under exact comparisons - not under a user-defined operator== that compares with tolerances. NOT decided: non-negativity, numerical "
         "equality with a freshly configured simulation.",
         technique="static analysis: closed-form algebra (sympy) on extracted expression DAGs, sibling agreement, setter/cache invalidation "
         "must-pass-through",
@@ -172,7 +172,7 @@ CLAIMED = {
         "compared, alias resolution follows standardisation and precedes the look-up; list-valued header vectors that a helper indexes in lock step are each size-tested "
         "against one expected count (exit on mismatch) on every path to that call; a key registered with the address of a vector element survives every resize of that vector by a keyword processor (F44, F50, fixed); "
         "no non-literal text is copied into a fixed-size buffer in the Interfile readers without a length test (F47, fixed); counts from the header are range-checked before they size vectors (F45, fixed); "
-        "the index of a vectorised key is converted strictly (F43, fixed). nothing parse_value_in_line evaluates before the keyword look-up can end in error() - comments and unknown keys are skipped whatever they contain (F80, a regression of the repair F43, fixed). NOT decided: absence of out-of-bounds access under "
+        "the index of a vectorised key is converted strictly (F43, fixed). nothing parse_value_in_line evaluates before the keyword look-up can end in error() - comments and unknown keys are skipped whatever they contain (F80, a regression of the repair F43, fixed). in read_line a trailing carriage return is removed from a physical line before its last character is compared with the continuation character. NOT decided: absence of out-of-bounds access under "
         "arbitrary bytes for the whole parser, value formatting round trips.",
         technique="static analysis: switch exhaustiveness against the registration API, must-facts bounds, resolved-callee ordering "
         "(must-pass-through), result-use discipline",
@@ -199,7 +199,7 @@ CLAIMED = {
         "first and the second detector's entry; make_fan_data_remove_gaps_help and set_fan_data_add_gaps_help are duals over one index map "
         "(identical loops, get_det_pair_for_bin call, virtual-crystal gap predicates and index compaction; transfer reversed, symmetric fan "
         "entry written); FanProjData stores each detector pair once (symmetric storage chosen by operator()) and every other member "
-        "function uses raw subscripts of the underlying array only for index ranges; the efficiency iteration updates in place, one detector at a time, from the current efficiencies (structural part of the KL descent); half the fan size covers both ends of the tangential range (known finding F60); format strings of the ML estimation are well-formed (F61, fixed). NOT decided: fixed point and KL descent of the ML iterations (numerical).",
+        "function uses raw subscripts of the underlying array only for index ranges; the efficiency iteration updates in place, one detector at a time, from the current efficiencies (structural part of the KL descent); half the fan size covers both ends of the tangential range (known finding F60); format strings of the ML estimation are well-formed (F61, fixed). the KL distance over fan data gives every detector pair the same weight - whole rb range, or rb == ra treated apart (F82, fixed). NOT decided: fixed point and KL descent of the ML iterations (numerical).",
         technique="static analysis: sibling/dual agreement of branches and of paired functions over canonical keys with role renaming",
     ),
     "C09": dict(
